@@ -1,4 +1,5 @@
 import TaffyVerif.Drv.C02
+import TaffyVerif.Drv.C11
 import TaffyVerif.Drv.C10
 import TaffyVerif.Drv.C08
 import TaffyVerif.Drv.C03
@@ -9,6 +10,7 @@ import TaffyVerif.Drv.C15
 
 def handlers : List (String × Handler) := [
   ("C02", DrvC02.handler),
+  ("C11", DrvC11.handler),
   ("C10", DrvC10.handler),
   ("C08", DrvC08.handler),
   ("C03", DrvC03.handler),
